@@ -19,6 +19,7 @@
 -/
 import EmitModel.Base.Sexp
 import EmitModel.Model.Otlp
+import EmitModel.Model.OtlpPipe
 
 namespace EmitModel.Driver.C12
 open EmitModel EmitModel.Otlp
@@ -93,6 +94,48 @@ def hasDup : List Int → Bool
   | [] => false
   | x :: xs => xs.contains x || hasDup xs
 
+/-! ### The signal as a whole: the channel with the send loop as its processor (Model/OtlpPipe.lean)
+
+The case's events are emitted while the worker is parked (one batch), a flush is requested, and the receiver runs to
+quiescence: hand-off, `send`, retry waits, callbacks. The collector's log this produces must be the one `runSignal`
+(the send loop under the bare retry loop, which the C12 theorems are about) produces — the two are compared on every
+case, and the log that is printed (and compared with the real emitter's) is the composite's. -/
+
+def pipeRxLabel (s : OtlpPipe.St) : Option OtlpPipe.Label :=
+  match s.ch.rx with
+  | .idle => if s.ch.pending.isEmpty && s.ch.pendFlushW.isEmpty && s.ch.pendTakeW.isEmpty then none else some (.chan .rxTake)
+  | .taken _ (_ :: _) _ _ => some (.chan .rxFireTake)
+  | .taken [] [] (_ :: _) _ => some (.chan .rxFireFlush)
+  | .taken _ [] _ _ => some (.chan .rxBegin)
+  | .processing _ _ _ => some .process
+  | .retryWait _ _ _ => some (.chan .rxRetryWaited)
+  | .notifying _ => some (.chan .rxFireFlush)
+  | .idleWait => some (.chan .rxIdleWaited)
+  | .done => none
+
+def pipeDrive (cfg : OtlpPipe.Cfg) : Nat → OtlpPipe.St → OtlpPipe.St × Bool
+  | 0, s => (s, false)
+  | fuel + 1, s =>
+    match pipeRxLabel s with
+    | none => (s, true)
+    | some l =>
+      match OtlpPipe.step cfg s l with
+      | none => (s, false)
+      | some s' => pipeDrive cfg fuel s'
+
+/-- (delivered, collector state, the flush callback fired and the receiver got quiescent) -/
+def pipeSignal (tr : Transport) (limit : Nat) (mine : List Ev) (net0 : Net) : Bool × Net × Bool :=
+  let cfg : OtlpPipe.Cfg :=
+    { ch := Batcher.Cfg.real 10000, tr := tr, limit := limit,
+      size := fun x => ((mine.find? fun e => e.id == (x : Int)).map (·.size)).getD 0 }
+  let s0 := OtlpPipe.init net0
+  let sent := mine.foldlM (fun s e => OtlpPipe.step cfg s (.chan (.send e.id.toNat))) s0
+  match sent.bind fun s => OtlpPipe.step cfg s (.chan (.whenFlushed 0)) with
+  | none => (false, net0, false)
+  | some s1 =>
+    let (s2, quiet) := pipeDrive cfg 400 s1
+    (s2.failed.isEmpty, s2.net, quiet && s2.ch.fired.contains 0)
+
 def runC12 (line : String) : String :=
   match Sexp.parse line with
   | some (.list [.atom "c12", .list [.atom "cfg", tr, enc, gz, lim], .list [.atom "sig", l, t, m],
@@ -116,9 +159,12 @@ def runC12 (line : String) : String :=
           let mine := (evs.filter fun e => route l t m e.kind.shape == .signal s).map (·.ev)
           let isDead := dead.contains s
           let net0 : Net := ⟨isDead, script, configured && !isDead, if configured && !isDead then 1 else 0, [], false⟩
-          let (ok, net) := runSignal tr limit mine net0
+          let (ok0, netLoop) := runSignal tr limit mine net0
+          let (ok, net, flushed) := pipeSignal tr limit mine net0
           let entries := net.log.reverse
-          (" ".intercalate (entries.map showEntry), (Chan.ofEvents limit mine).requests.length,
+          let agree := flushed && ok == ok0 && net == netLoop
+          ((if agree then "" else "COMPOSITE-MODEL-DISAGREES-WITH-SEND-LOOP ") ++ " ".intercalate (entries.map showEntry),
+           (Chan.ofEvents limit mine).requests.length,
            (entries.filter fun e => !(e.resp.headArrives && interpret tr e.resp)).length +
              (entries.filter fun e => e.resp.leavesStale).length, ok)
         let (ls, ln, lf, lok) := one .logs l sl
